@@ -1,10 +1,27 @@
 """C25 - terminal addresses assigned by the master are unique.
 
 Real EtherCat.find_free_address / assigned_address / scan_serial_numbers and
-Terminal.initialize run concurrently on the virtual loop against a ring of ESC
-models.  The address range is shrunk to a handful of addresses and every
-randint answer is an explorer choice (so collisions are forced); frame
+Terminal.initialize / gentle_initialize run on the virtual loop against a ring
+of ESC models.  The address range is shrunk to a handful of addresses and
+every randint answer is an explorer choice (so collisions are forced); frame
 delivery order deviations are bounded.
+
+A workload is a script: stages run one after the other, the operations of a
+stage concurrently ("a+b/c" = a and b together, then c).  Operations:
+  init     Terminal.initialize(relative=-i), a fresh object per terminal
+  rest     the same for all terminals but the first
+  scan     EtherCat.scan_serial_numbers()
+  alloc    EtherCat.find_free_address()
+  gentle   Terminal.gentle_initialize(relative=-i) for every terminal
+  user     Terminal.initialize(relative=0, absolute=X), X chosen by the user:
+           an address of the range at which nobody answers and which the
+           master never had anything to do with
+  gabs     Terminal.gentle_initialize(absolute=A), A the address the first
+           terminal carries (if it carries one from the range)
+  plug     a terminal whose station address is already set (to such an X)
+           appears at the end of the bus; plug0: an unaddressed one
+  reinit   the Terminal object of the first terminal is initialised once
+           more, at the second terminal's position
 """
 import asyncio
 import contextlib
@@ -18,13 +35,29 @@ from ebpfcat.ethercat import EtherCat, Terminal
 
 PROP = "C25"
 LEVEL = "model_checking"
-RULE = ("buses of 2-4 terminals (pre-assigned inside/outside the range or "
-        "unaddressed) x workloads (concurrent initialize, serial-number scan, "
-        "both) x every randint answer from the shrunk range x bounded "
+RULE = ("buses of 2-4 terminals (pre-assigned inside/outside the range, "
+        "unaddressed, or - for gentle_initialize - two with the same "
+        "address) x workloads (scripts of concurrent / consecutive "
+        "initialize, gentle_initialize, serial-number scans and "
+        "find_free_address calls; user-chosen addresses via "
+        "initialize(relative, absolute=X) / gentle_initialize(absolute=X) "
+        "and terminals plugged in pre-addressed, before and after a "
+        "completed scan; one Terminal object initialised at two positions) "
+        "x every randint answer from the shrunk range x bounded "
         "delivery-order deviations; non-trivial = at least one address was "
-        "written; distinct = distinct (bus, workload, choices)")
+        "written or handed out; distinct = distinct (bus, workload, choices)")
 
 LO, HI = 1000, 1004     # randint is inclusive: 5 addresses
+INSIDE, OUTSIDE = 1002, 50
+
+# the names the workloads had before they became scripts
+ALIASES = {
+    "both": "init+scan",
+    "alloc": "alloc+alloc+alloc",
+    "alloc-seq": "alloc/alloc/alloc",
+    "alloc-scan-alloc": "alloc/scan/alloc",
+    "alloc+scan": "alloc+scan+alloc",
+}
 
 
 def sii_image(serial):
@@ -41,11 +74,15 @@ class Exhausted(Exception):
 
 def execute(ch, conf):
     pre, workload = conf
+    script = [stage.split("+")
+              for stage in ALIASES.get(workload, workload).split("/")]
     loop = vloop.VLoop()
     with contextlib.ExitStack() as stack, loop:
         terms = [bussim.Terminal(f"t{i}", station=a, sii=sii_image(100 + i))
                  for i, a in enumerate(pre)]
+        n = len(terms)
         bus = bussim.Bus(terms)
+        terms = bus.terminals       # the list the bus walks: plug appends
         m = bussim.Master(bus, lambda: EtherCat("sim"), loop)
         ec = m.ec
         ec.terminal_addr_range = (LO, HI)
@@ -77,46 +114,116 @@ def execute(ch, conf):
         handlers["randint"] = randint
         stack.enter_context(seams.own_random([ecmod], handlers))
         try:
-            writes = []      # (terminal index, address, others' addresses)
-            for i, t in enumerate(terms):
+            # (terminal index, address, others' addresses, chosen by user)
+            writes = []
+            user_writes = set()
+
+            def watch(t):
                 orig = t.write
 
-                def write(ado, data, t=t, i=i, orig=orig):
-                    before = t.station
+                def write(ado, data, t=t, orig=orig):
                     ok = orig(ado, data)
-                    if ado <= 0x10 < ado + len(data) and t.station != before:
+                    if ado <= 0x10 and ado + len(data) >= 0x12:
+                        i = terms.index(t)
                         writes.append((i, t.station,
                                        [o.station for o in terms
-                                        if o is not t]))
+                                        if o is not t],
+                                       (i, t.station) in user_writes))
                     return ok
                 t.write = write
-            coros = []
-            tobjs = []
-            if workload in ("init", "both"):
-                for i in range(len(terms)):
-                    tt = Terminal(ec)
-                    tobjs.append(tt)
-                    coros.append(tt.initialize(relative=-i))
-            if workload in ("scan", "both"):
-                coros.append(ec.scan_serial_numbers())
-            if workload == "alloc":
-                # allocate first, use later: three concurrent requests
-                coros += [ec.find_free_address() for _ in range(3)]
-            if workload == "alloc-seq":
-                async def batch():
-                    return [await ec.find_free_address() for _ in range(3)]
-                coros.append(batch())
-            if workload == "alloc-scan-alloc":
-                # an address reserved ahead of its use survives a scan
-                async def history():
-                    a = await ec.find_free_address()
-                    await ec.scan_serial_numbers()
-                    return [a, await ec.find_free_address()]
-                coros.append(history())
-            if workload == "alloc+scan":
-                coros += [ec.find_free_address(), ec.scan_serial_numbers(),
-                          ec.find_free_address()]
-            fut = asyncio.gather(*coros, return_exceptions=True)
+            for t in terms:
+                watch(t)
+            # every address the master hands out, and who answered where at
+            # that moment
+            handouts = []
+            find_free_address = ec.find_free_address
+
+            async def observed_find_free_address():
+                a = await find_free_address()
+                handouts.append((a, [t.station for t in terms]))
+                return a
+            ec.find_free_address = observed_find_free_address
+            given = []
+            skipped = []
+            tobjs = {}
+
+            def tobj(i):
+                if i not in tobjs:
+                    tobjs[i] = Terminal(ec)
+                return tobjs[i]
+
+            def fresh():
+                """an address of the range nobody answers at and the master
+                never drew, handed out or wrote"""
+                known = {t.station for t in terms} | set(drawn) | \
+                    {a for a, _ in handouts} | {w[1] for w in writes}
+                for a in range(LO, HI + 1):
+                    if a not in known:
+                        return a
+                return None
+
+            async def alloc():
+                a = await ec.find_free_address()
+                given.append((a, [t.station for t in terms]))
+                return a
+
+            def operations(name):
+                """-> coroutines of one operation of a stage"""
+                if name == "init":
+                    return [tobj(i).initialize(relative=-i)
+                            for i in range(n)]
+                if name == "rest":
+                    return [tobj(i).initialize(relative=-i)
+                            for i in range(1, n)]
+                if name == "gentle":
+                    return [tobj(i).gentle_initialize(relative=-i)
+                            for i in range(n)]
+                if name == "scan":
+                    return [ec.scan_serial_numbers()]
+                if name == "alloc":
+                    return [alloc()]
+                if name == "reinit":
+                    return [tobj(0).initialize(relative=-1)]
+                if name == "user":
+                    x = fresh()
+                    if x is None:
+                        skipped.append(name)
+                        return []
+                    user_writes.add((0, x))
+                    return [tobj(0).initialize(relative=0, absolute=x)]
+                if name == "gabs":
+                    a = terms[0].station
+                    if not LO <= a <= HI:
+                        skipped.append(name)
+                        return []
+                    return [tobj(0).gentle_initialize(absolute=a)]
+                if name in ("plug", "plug0"):
+                    x = fresh() if name == "plug" else 0
+                    if x is None:
+                        skipped.append(name)
+                        return []
+                    t = bussim.Terminal(f"t{len(terms)}", station=x,
+                                        sii=sii_image(100 + len(terms)))
+                    watch(t)
+                    terms.append(t)
+                    return []
+                raise core.Internal(f"unknown operation {name!r}")
+            scans = []
+
+            async def main():
+                results = []
+                for stage in script:
+                    coros = []
+                    for name in stage:
+                        ops = operations(name)
+                        if name == "scan":
+                            scans.append(len(results) + len(coros))
+                        coros += ops
+                    if coros:
+                        results += await asyncio.gather(
+                            *coros, return_exceptions=True)
+                return results
+            fut = asyncio.ensure_future(main())
 
             def on_idle(master):
                 n = len(master.transport.inflight)
@@ -133,27 +240,23 @@ def execute(ch, conf):
                 return False
             done = m.run(fut, max_frames=400, on_idle=on_idle)
             results = None
-            if done:
-                results = [type(r).__name__ if isinstance(r, BaseException)
-                           else "ok" for r in fut.result()]
-            final = [t.station for t in terms]
             scan = None
-            if done and workload in ("scan", "both") and \
-                    not isinstance(fut.result()[-1], BaseException):
-                scan = sorted(fut.result()[-1].items())
-            positions = [getattr(t, "position", None) for t in tobjs]
-            given = None
-            if done and workload.startswith("alloc"):
-                given = []
-                for r in fut.result():
-                    if isinstance(r, list):
-                        given += r
-                    elif isinstance(r, int):
-                        given.append(r)
+            if done:
+                rs = fut.result()
+                results = [type(r).__name__ if isinstance(r, BaseException)
+                           else "ok" for r in rs]
+                good = [rs[i] for i in scans
+                        if not isinstance(rs[i], BaseException)]
+                if good:
+                    scan = sorted(good[-1].items())
+            final = [t.station for t in terms]
+            positions = [getattr(tobjs[i], "position", None)
+                         for i in sorted(tobjs)]
         finally:
             loop.shutdown()
     return dict(done=done, results=results, writes=writes, final=final,
-                scan=scan, positions=positions, given=given)
+                scan=scan, positions=positions, given=given,
+                handouts=handouts, skipped=skipped)
 
 
 def judge(conf, ch, obs, res):
@@ -167,7 +270,11 @@ def judge(conf, ch, obs, res):
     # other); only the addresses are judged
     clean = obs["done"] and all(r == "ok" for r in obs["results"])
     handed = {}
-    for i, addr, others in obs["writes"]:
+    for i, addr, others, user in obs["writes"]:
+        if user:
+            # the user's own choice (made so that it is in the range and
+            # free): not an address the master assigned
+            continue
         if not LO <= addr <= HI:
             bad(f"address in [{LO}, {HI}]", addr, "address outside the range")
         if addr in handed and handed[addr] != i:
@@ -177,43 +284,101 @@ def judge(conf, ch, obs, res):
         if addr in others:
             bad("address not in use by another terminal", (addr, others),
                 "assigned an address at which a terminal already answers")
-    for addr in obs.get("given") or []:
-        if not LO <= addr <= HI:
-            bad(f"address in [{LO}, {HI}]", addr, "address outside the range")
-        if addr in pre:
-            bad("address not in use by a terminal", (addr, pre),
-                "handed out an address at which a terminal already answers")
-    if obs.get("given") and len(set(obs["given"])) != len(obs["given"]):
-        bad("each address handed out once", obs["given"],
-            "address handed out twice")
-    for addr in obs.get("given") or []:
+    for what in ("given", "handouts"):
+        seen = []
+        for addr, stations in obs[what]:
+            if not LO <= addr <= HI:
+                bad(f"address in [{LO}, {HI}]", addr,
+                    "address outside the range")
+            if addr in stations:
+                bad("address not in use by a terminal", (addr, stations),
+                    "handed out an address at which a terminal already "
+                    "answers")
+            if addr in seen:
+                bad("each address handed out once",
+                    [a for a, _ in obs[what]], "address handed out twice")
+            seen.append(addr)
+    for addr, _ in obs["given"]:
         if addr in handed:
             bad("an address given to a caller is not also written to a "
                 "terminal", (addr, handed[addr]),
                 "address handed out twice")
+    # two terminals answering at one address in the end: the master's doing
+    # if it wrote that address
     nz = [a for a in obs["final"] if a]
-    if len(set(nz)) != len(nz):
-        bad("distinct station addresses", obs["final"],
-            "two terminals end with the same address")
+    for addr in sorted(set(nz)):
+        if nz.count(addr) > 1 and addr in handed:
+            bad("distinct station addresses", obs["final"],
+                "two terminals end with the same address")
     if workload == "init" and clean and 0 in obs["final"]:
         bad("all terminals addressed", obs["final"], "terminal left at 0")
 
 
+def distinct(pre):
+    nz = [a for a in pre if a]
+    return len(set(nz)) == len(nz)
+
+
 def configs(ctx):
     out = []
-    alphabet = [0, 1002, 50]    # unaddressed, inside the range, outside
+    alphabet = [0, INSIDE, OUTSIDE]   # unaddressed, inside the range, outside
     for n in (2, 3) if ctx.quick else (2, 3, 4):
         for pre in itertools.product(alphabet, repeat=n):
-            nz = [a for a in pre if a]
-            if len(set(nz)) != len(nz):
-                continue
-            if n == 4 and ctx.quick:
+            if not distinct(pre):
                 continue
             for workload in ("init", "scan", "both"):
                 out.append((pre, workload))
             if n == 2:
                 out += [(pre, "alloc"), (pre, "alloc-seq"),
                         (pre, "alloc-scan-alloc"), (pre, "alloc+scan")]
+    # addresses chosen by the user, terminals that turn up with an address:
+    # nothing, or a completed scan, before; then the master has to find
+    # free addresses.  The quick tier thins the buses, not the workloads.
+    q = ctx.quick
+    for n in (2, 3):
+        for pre in itertools.product(alphabet, repeat=n):
+            if not distinct(pre):
+                continue
+            if n == 3 and (pre[1:] != (0, 0) if q else 0 not in pre[1:]):
+                continue
+            for before in ("", "scan/"):
+                if 0 in pre[1:]:
+                    if not (q and before and n == 3 and pre[0]):
+                        out.append((pre, before + "user/rest"))
+                    out.append((pre, before + "user/scan"))
+                if n == 2:
+                    out.append((pre, before + "user/alloc"))
+                    if pre[0] == INSIDE:
+                        out.append((pre, before + "gabs/rest"))
+                        out.append((pre, before + "gabs/alloc"))
+                    out.append((pre, before + "plug/alloc"))
+                    out.append((pre, before + "plug0+plug/scan"))
+                    if not q or pre == (0, 0) or \
+                            not before and pre in ((0, INSIDE), (OUTSIDE, 0)):
+                        out.append((pre, before + "plug/init"))
+            if n == 2:
+                out.append((pre, "scan/user"))
+                out.append((pre, "user/scan/alloc"))
+                out.append((pre, "scan/plug/scan/alloc"))
+    # gentle_initialize meets whatever is on the bus, including two
+    # terminals with the same address; a Terminal object used twice
+    a, b = INSIDE, OUTSIDE
+    for n in (2, 3):
+        for pre in itertools.product(alphabet, repeat=n):
+            if n == 3 and q and pre not in (
+                    (a, a, 0), (a, 0, a), (0, a, a), (a, a, b), (b, a, a),
+                    (a, b, a), (b, b, 0), (a, a, a)):
+                continue
+            out.append((pre, "gentle"))
+            if n == 2:
+                if not q or not distinct(pre) or b in pre:
+                    out.append((pre, "scan/gentle"))
+                if not q or pre in ((0, 0), (0, a), (a, 0), (b, 0), (a, a)):
+                    out.append((pre, "init/reinit"))
+                if not q or pre in ((a, 0), (b, 0), (a, a)):
+                    out.append((pre, "gentle/reinit"))
+                if not q:
+                    out.append((pre, "gentle/init"))
     return out
 
 
@@ -223,11 +388,15 @@ def work(item, res):
     def on_exec(ch, obs):
         res.count("evaluations")
         res.count("transitions", len(ch.trace))
-        if obs["writes"] or obs.get("given"):
+        if obs["writes"] or obs["given"] or obs["handouts"]:
             res.nontrivial.add(core.digest([conf, ch.choices]))
         res.outcomes.add((tuple(obs["final"]), obs["done"]))
         if not obs["done"]:
             res.count("horizon_reached")
+        if obs["skipped"]:
+            res.count("operations_skipped_range_used_up")
+        if any(w[3] for w in obs["writes"]):
+            res.count("executions_with_user_chosen_address")
         judge(conf, ch, obs, res)
     n, capped = explore.dfs(lambda ch: execute(ch, conf), bound, on_exec,
                             max_execs=cap)
@@ -247,15 +416,44 @@ def run(ctx):
     res.cov["states"] = len(res.nontrivial)
     res.cov["traces_validated_against_impl"] = res.cov.get("evaluations", 0)
     res.cov["bound_completed"] = bound
+    if not res.cov.get("executions_with_user_chosen_address") and \
+            not res.violations:
+        raise core.Internal("no user-chosen address reached a terminal")
     res.sample(dict(pre=[0, 1002, 0], workload="both",
                     meaning="three terminals, the middle one pre-assigned "
                             "inside the range; initialize all concurrently "
                             "with a serial-number scan"))
+    res.sample(dict(pre=[0, 0], workload="scan/user/rest",
+                    meaning="after a completed scan the first terminal is "
+                            "initialised with an address the user chose, "
+                            "then the second one with one the master has "
+                            "to find"))
+    res.sample(dict(pre=[1002, 1002, 0], workload="gentle",
+                    meaning="gentle_initialize of three INIT-state "
+                            "terminals, two of which answer at the same "
+                            "address"))
     res.assumptions += [
         "randint answers are free choices (cost 0) over the shrunk range "
         "1000..1004; an already used address is answered at most once in a "
         "row (the real loop retries without awaiting)",
-        "frames are not lost (a lost frame only makes the workload pend)"]
+        "frames are not lost (a lost frame only makes the workload pend)",
+        "an address the user chooses (initialize(relative, absolute=X)) or "
+        "a terminal brings along when it is plugged in is one of the range "
+        "at which nobody answers and which the master never drew, handed "
+        "out or wrote; it appears between two stages of the workload, never "
+        "while an allocation is under way; it is not judged itself, but "
+        "from then on the master must not hand it out",
+        "gentle_initialize takes relative or absolute, not both (its own "
+        "assertion): with absolute=A nothing is written, A is the address "
+        "the terminal carries",
+        "two terminals that answer at the same address from the outset, or "
+        "end at one the master never wrote, are not the master's fault; a "
+        "write of an address to a terminal that carries it already counts "
+        "as a write",
+        "hand-outs are observed by wrapping the EtherCat object's "
+        "find_free_address; 'answers at that moment' is the station "
+        "register of the bus model when the call returns / when the write "
+        "passes the terminal"]
     return res
 
 
